@@ -806,6 +806,9 @@ def schnorrsig_verify(sig, msg, pubkey, context=_secp.ctx):
     assert len(msg) == 32
     assert len(pubkey) == 64
     _check_pubkey(pubkey)
+    if pubkey[32] & 1:
+        # an x-only key structure always holds the point with even Y
+        raise ValueError("Not an x-only public key")
     res = _secp.secp256k1_schnorrsig_verify(context, sig, msg, pubkey)
     return bool(res)
 
